@@ -160,6 +160,7 @@ type Gen struct {
 	Rng  *rand.Rand
 	Kind string
 	uniq int
+	remarkN int
 	// Small universe for C14: few hosts, nets, ports.
 	Small bool
 	// Generate VPN objects (ASA).
@@ -419,6 +420,58 @@ func (g *Gen) Target() *GConf {
 		c.VPN = g.TargetVPN(c.Intfs[len(c.Intfs)-1])
 	}
 	return c
+}
+
+// addRemarks puts remark lines into ACLs of device and target: mostly the
+// same remark in front of the same entry on both sides (preferably an
+// entry that follows a line which is new in the target, so that the
+// device line directly behind an insert position is a remark), sometimes
+// on one side only.
+func (g *Gen) AddRemarks(d, t *GConf) {
+	for _, da := range d.ACLs {
+		ta := t.acl(strings.SplitN(da.Name, "-DRC-", 2)[0])
+		if ta == nil || g.Rng.Intn(3) != 0 {
+			continue
+		}
+		onDev := map[string]bool{}
+		for _, l := range da.Lines {
+			onDev[l] = true
+		}
+		var anchors []string
+		for i, l := range ta.Lines {
+			if !onDev[l] && i+1 < len(ta.Lines) && onDev[ta.Lines[i+1]] {
+				anchors = append(anchors, ta.Lines[i+1])
+			}
+		}
+		for k := 1 + g.Rng.Intn(2); k > 0; k-- {
+			var anchor string
+			if len(anchors) > 0 && g.Rng.Intn(4) != 0 {
+				anchor = anchors[g.Rng.Intn(len(anchors))]
+			} else if len(ta.Lines) > 0 {
+				anchor = ta.Lines[g.Rng.Intn(len(ta.Lines))]
+			}
+			if anchor == "" || strings.HasPrefix(anchor, "remark ") {
+				continue
+			}
+			g.remarkN++
+			rem := fmt.Sprintf("remark r%d %s", g.remarkN, []string{"servers", "added by ticket 4711", "temporary"}[g.Rng.Intn(3)])
+			side := g.Rng.Intn(8) // 0: device only, 1: target only, else both
+			ins := func(lines []string) []string {
+				for i, l := range lines {
+					if l == anchor {
+						return append(lines[:i:i], append([]string{rem}, lines[i:]...)...)
+					}
+				}
+				return lines
+			}
+			if side != 1 {
+				da.Lines = ins(da.Lines)
+			}
+			if side != 0 {
+				ta.Lines = ins(ta.Lines)
+			}
+		}
+	}
 }
 
 // dedupMembers: a group never holds one member twice.
@@ -913,6 +966,7 @@ func (g *Gen) Device(t *GConf, nedits int, unmanaged bool) (*GConf, []string) {
 			}
 		}
 	}
+	g.AddRemarks(d, t)
 	for _, a := range d.ACLs {
 		a.Lines = dedupLines(a.Lines, g.Kind == "ios")
 	}
